@@ -16,8 +16,16 @@ def flags(repo):
 
 
 def ensure():
-    if not os.path.exists(GM):
-        subprocess.check_call(['make', '-s', '-C', facts.VERIF, 'build/gm'])
+    """build the rewrite generator once; checks running in parallel wait for each other (the binary is never executed half-written)"""
+    import fcntl
+    os.makedirs(os.path.dirname(GM), exist_ok=True)
+    with open(GM + '.lock', 'w') as lk:
+        fcntl.flock(lk, fcntl.LOCK_EX)
+        try:
+            if not (os.path.exists(GM) and os.access(GM, os.X_OK)):
+                subprocess.check_call(['make', '-s', '-C', facts.VERIF, 'build/gm'])
+        finally:
+            fcntl.flock(lk, fcntl.LOCK_UN)
 
 
 def list_sites(unit, repo):
